@@ -239,6 +239,65 @@ func init() {
 		}
 		return NewErr("new", id, args[0], nil)
 	}
+	// errors.Is / errors.As / errors.Unwrap over stub errors and interpreted error types
+	unwrap := func(fr *frame, e iface) (iface, bool) {
+		if e.t == nil {
+			return iface{}, false
+		}
+		if se, ok := e.v.(*symErr); ok {
+			if w, ok := se.Wrapped.(iface); ok && w.t != nil {
+				return w, true
+			}
+			return iface{}, false
+		}
+		if sel := fr.i.prog.MethodSets.MethodSet(e.t).Lookup(nil, "Unwrap"); sel != nil {
+			if m := fr.i.prog.MethodValue(sel); m != nil && m.Signature.Params().Len() == 0 {
+				if w, ok := call(fr.i, fr, 0, m, []value{e.v}).(iface); ok && w.t != nil {
+					return w, true
+				}
+			}
+		}
+		return iface{}, false
+	}
+	defaultIntercepts["errors.As"] = func(ps *PathState, fr *frame, fn *ssa.Function, args []value) value {
+		e, _ := args[0].(iface)
+		tgt, ok := args[1].(iface)
+		if !ok || tgt.t == nil {
+			panic(unsupported{"errors.As with a nil target"})
+		}
+		elem := mustDeref(tgt.t)
+		ptr := tgt.v.(*value)
+		for e.t != nil {
+			if _, isIface := elem.Underlying().(*types.Interface); !isIface && types.Identical(e.t, elem) {
+				*ptr = e.v
+				return true
+			}
+			var more bool
+			if e, more = unwrap(fr, e); !more {
+				break
+			}
+		}
+		return false
+	}
+	defaultIntercepts["errors.Is"] = func(ps *PathState, fr *frame, fn *ssa.Function, args []value) value {
+		e, _ := args[0].(iface)
+		t, _ := args[1].(iface)
+		for e.t != nil {
+			if e.t == t.t && (e.v == t.v || equalsSafe(e.t, e.v, t.v)) {
+				return true
+			}
+			var more bool
+			if e, more = unwrap(fr, e); !more {
+				break
+			}
+		}
+		return t.t == nil && e.t == nil
+	}
+	defaultIntercepts["errors.Unwrap"] = func(ps *PathState, fr *frame, fn *ssa.Function, args []value) value {
+		e, _ := args[0].(iface)
+		w, _ := unwrap(fr, e)
+		return w
+	}
 	noop := func(ps *PathState, fr *frame, fn *ssa.Function, args []value) value { return nil }
 	for _, n := range []string{"Debug", "Info", "Warn", "Error"} {
 		defaultIntercepts["log/slog."+n] = noop
@@ -275,4 +334,113 @@ func SMTPrelude() []string {
 	}
 	d += "(ite (>= n 0) (str.from_int n) (str.++ \"-\" (str.from_int (- n))))" + strings.Repeat(")", 12) + ")"
 	return []string{d}
+}
+
+func equalsSafe(t types.Type, x, y value) (eq bool) {
+	defer func() {
+		if recover() != nil {
+			eq = false
+		}
+	}()
+	return equals(t, x, y)
+}
+
+// strings.Builder uses unsafe tricks (copyCheck); it is modelled host-side as
+// a list of parts keyed by the receiver's address.
+func init() {
+	parts := func(ps *PathState, recv value) *[]value {
+		if ps.builders == nil {
+			ps.builders = map[*value]*[]value{}
+		}
+		p := recv.(*value)
+		b, ok := ps.builders[p]
+		if !ok {
+			b = &[]value{}
+			ps.builders[p] = b
+		}
+		return b
+	}
+	defaultIntercepts["(*strings.Builder).WriteString"] = func(ps *PathState, fr *frame, fn *ssa.Function, args []value) value {
+		b := parts(ps, args[0])
+		*b = append(*b, args[1])
+		n, _ := args[1].(string)
+		return tuple{len(n), iface{}}
+	}
+	defaultIntercepts["(*strings.Builder).WriteByte"] = func(ps *PathState, fr *frame, fn *ssa.Function, args []value) value {
+		b := parts(ps, args[0])
+		*b = append(*b, string([]byte{byte(asInt64(args[1]))}))
+		return iface{}
+	}
+	defaultIntercepts["(*strings.Builder).WriteRune"] = func(ps *PathState, fr *frame, fn *ssa.Function, args []value) value {
+		b := parts(ps, args[0])
+		*b = append(*b, string(rune(asInt64(args[1]))))
+		return tuple{1, iface{}}
+	}
+	defaultIntercepts["(*strings.Builder).String"] = func(ps *PathState, fr *frame, fn *ssa.Function, args []value) value {
+		return concatStrings(*parts(ps, args[0]))
+	}
+	defaultIntercepts["(*strings.Builder).Len"] = func(ps *PathState, fr *frame, fn *ssa.Function, args []value) value {
+		n := 0
+		for _, p := range *parts(ps, args[0]) {
+			s, ok := p.(string)
+			if !ok {
+				panic(unsupported{"Builder.Len with symbolic parts"})
+			}
+			n += len(s)
+		}
+		return n
+	}
+	defaultIntercepts["(*strings.Builder).Grow"] = func(ps *PathState, fr *frame, fn *ssa.Function, args []value) value { return nil }
+	defaultIntercepts["(*strings.Builder).Reset"] = func(ps *PathState, fr *frame, fn *ssa.Function, args []value) value {
+		*parts(ps, args[0]) = nil
+		return nil
+	}
+	defaultIntercepts["strings.Contains"] = func(ps *PathState, fr *frame, fn *ssa.Function, args []value) value {
+		a, ok1 := args[0].(string)
+		b, ok2 := args[1].(string)
+		if ok1 && ok2 {
+			return strings.Contains(a, b)
+		}
+		x, _ := toSym(args[0])
+		y, _ := toSym(args[1])
+		return Sym{S: SBool, T: "(str.contains " + x.T + " " + y.T + ")"}
+	}
+	defaultIntercepts["strings.HasPrefix"] = func(ps *PathState, fr *frame, fn *ssa.Function, args []value) value {
+		a, ok1 := args[0].(string)
+		b, ok2 := args[1].(string)
+		if ok1 && ok2 {
+			return strings.HasPrefix(a, b)
+		}
+		x, _ := toSym(args[0])
+		y, _ := toSym(args[1])
+		return Sym{S: SBool, T: "(str.prefixof " + y.T + " " + x.T + ")"}
+	}
+	defaultIntercepts["strings.HasSuffix"] = func(ps *PathState, fr *frame, fn *ssa.Function, args []value) value {
+		a, ok1 := args[0].(string)
+		b, ok2 := args[1].(string)
+		if ok1 && ok2 {
+			return strings.HasSuffix(a, b)
+		}
+		x, _ := toSym(args[0])
+		y, _ := toSym(args[1])
+		return Sym{S: SBool, T: "(str.suffixof " + y.T + " " + x.T + ")"}
+	}
+	defaultIntercepts["strings.TrimSuffix"] = func(ps *PathState, fr *frame, fn *ssa.Function, args []value) value {
+		a, ok1 := args[0].(string)
+		b, ok2 := args[1].(string)
+		if ok1 && ok2 {
+			return strings.TrimSuffix(a, b)
+		}
+		panic(unsupported{"strings.TrimSuffix on symbolic strings"})
+	}
+	defaultIntercepts["strings.Compare"] = func(ps *PathState, fr *frame, fn *ssa.Function, args []value) value {
+		a, ok1 := args[0].(string)
+		b, ok2 := args[1].(string)
+		if ok1 && ok2 {
+			return strings.Compare(a, b)
+		}
+		x, _ := toSym(args[0])
+		y, _ := toSym(args[1])
+		return Sym{S: SInt, T: "(ite (= " + x.T + " " + y.T + ") 0 (ite (str.< " + x.T + " " + y.T + ") (- 1) 1))"}
+	}
 }
